@@ -253,10 +253,16 @@ func HarnessL3() {
 			zzvrt.Check("C08.L3.enum-marshals-back-to-the-bare-value", zzvrt.Implies(nd, mb))
 		}
 	}
-	zzvrt.Check("C03.L3.wrong-type-rejected", zzvrt.Implies(zzvrt.And(base, f.others("typ")), zzvrt.Iff(accepted, f.typ)), fmtDev, apDev)
+	// recorded finding: a definition {type: null} is emitted as an unvalidated interface{} type
+	refNull := zzvrt.Dev{Name: "ref-to-null-definition-unvalidated", Cond: viaRef && ps.kind == "null"}
+	zzvrt.Check("C03.L3.wrong-type-rejected", zzvrt.Implies(zzvrt.And(base, f.others("typ")), zzvrt.Iff(accepted, f.typ)), fmtDev, apDev, refNull)
 	zzvrt.Check("C03.L3.null-accepted-where-allowed", zzvrt.Implies(zzvrt.And(nd, zzvrt.And(f.nullObject, f.all())), accepted), nullObj)
 	zzvrt.Check("C04.L3.required", zzvrt.Implies(zzvrt.And(base, f.others("req")), zzvrt.Iff(accepted, f.req)))
 	zzvrt.Check("C05.L3.bounds", zzvrt.Implies(zzvrt.And(base, f.others("num")), zzvrt.Iff(accepted, f.num)), refDev)
+	if cfg.MinSizedInts {
+		// C15: with --min-sized-ints the emitted program still denotes the stated interval
+		zzvrt.Check("C15.L3.min-sized-ints-keep-the-stated-interval", zzvrt.Implies(zzvrt.And(base, f.others("num")), zzvrt.Iff(accepted, f.num)), refDev)
+	}
 	zzvrt.Check("C05.L3.multiple-of", zzvrt.Implies(zzvrt.And(base, f.others("mult")), zzvrt.Iff(accepted, f.mult)), refDev)
 	zzvrt.Check("C06.L3.length-pattern", zzvrt.Implies(zzvrt.And(zzvrt.And(nd, zzvrt.And(noItems, zzvrt.Not(f.nullObject))), f.others("str")), zzvrt.Iff(accepted, f.str)), bytesDev, refDev)
 	zzvrt.Check("C07.L3.array-limits", zzvrt.Implies(zzvrt.And(zzvrt.And(nd, zzvrt.And(noBytes, zzvrt.Not(f.nullObject))), f.others("arr")), zzvrt.Iff(accepted, f.arr)), items, nested, refArr)
